@@ -5,6 +5,9 @@
 //
 //	reset lh=<0|1> v=<1|2> nets=<p,..> lhs=<a,..|-> st=<vpn@ap+ap;..|-> cr=<vpnprefix@mask:port+mask:port;..|->
 //	      G <-|prefix=T|F ...> [R <prefix> <prefix=T|F ...>]...                              -> ok | err
+//	reload lh=<0|1> lhs=.. st=.. cr=.. G .. [R ..]..   the configuration file changed and is reloaded through
+//	                                 config.C.ReloadConfigString (same syntax as reset; nets and v cannot change)
+//	                                 -> lhs=<the lighthouse list now in force>
 //	msg <from,..> <type> <ver 0|1|2|3> <vpn|-> <v4 aps|-> <v6 aps|-> <oldrelays|-> <relays|->
 //	        -> S[to:type:vpn:v4:v6:relays;..] P[target>vpn,..] T[addr|-]
 //	nodetails <from,..> <type>       (a NebulaMeta without Details)        -> same format
@@ -165,6 +168,97 @@ func gen(r *hlib.Rand, n int, tier, profile string, emit func(string, ...any)) {
 			}
 		}
 		emit("reset lh=%s v=%d nets=%s lhs=%s st=%s cr=%s G %s", hlib.B(amLH), hlib.Pick(r, 1, 2, 2), nets, lhs, st, cr, g)
+		// configuration reloads later in the case mutate these
+		cfgLH, cfgLhs, cfgSt, cfgCr, cfgG := amLH, lhs, st, cr, g
+		lhStatic := map[string]string{"10.128.0.2": "70.1.1.2:4242", "10.128.0.3": "70.1.1.3:4242", "10.128.0.4": "70.1.1.4:4242"}
+		split := func(s, sep string) []string {
+			if s == "-" {
+				return nil
+			}
+			return strings.Split(s, sep)
+		}
+		join := func(l []string, sep string) string {
+			if len(l) == 0 {
+				return "-"
+			}
+			return strings.Join(l, sep)
+		}
+		hasStatic := func(vpnHex string) bool {
+			for _, e := range split(cfgSt, ";") {
+				if strings.HasPrefix(e, vpnHex+"@") {
+					return true
+				}
+			}
+			return false
+		}
+		reload := func() {
+			hosts := split(cfgLhs, ",")
+			sts := split(cfgSt, ";")
+			addHost := func(a string, withStatic bool) {
+				for _, h := range hosts {
+					if h == hx(a) {
+						return
+					}
+				}
+				hosts = append(hosts, hx(a))
+				if withStatic && !hasStatic(hx(a)) {
+					sts = append(sts, hx(a)+"@"+hlib.AddrPortHex(netip.MustParseAddrPort(lhStatic[a])))
+				}
+			}
+			switch r.Intn(12) {
+			case 0, 1, 2: // a lighthouse is removed (its static entry stays)
+				if len(hosts) > 0 {
+					i := r.Intn(len(hosts))
+					hosts = append(append([]string{}, hosts[:i]...), hosts[i+1:]...)
+				}
+			case 3: // the list is permuted
+				if len(hosts) > 1 {
+					hosts[0], hosts[len(hosts)-1] = hosts[len(hosts)-1], hosts[0]
+				}
+			case 4, 5: // a lighthouse is added, with its static entry
+				addHost(hlib.Pick(r, "10.128.0.2", "10.128.0.3", "10.128.0.4"), true)
+			case 6: // replaced: one out, another in
+				if len(hosts) > 0 {
+					hosts = hosts[1:]
+				}
+				addHost(hlib.Pick(r, "10.128.0.3", "10.128.0.4"), true)
+			case 7: // a host without static entry: the reload of the list is refused
+				addHost(hlib.Pick(r, "10.128.0.4", "10.128.0.11"), false)
+			case 8: // am_lighthouse flipped in the file (not reloadable)
+				cfgLH = !cfgLH
+			case 9: // remote allow list changed
+				cfgG = hlib.Pick(r, "-", "00000000/0=T c0a80000/16=F", "01010101/32=F", "00000000/0=T 46000000/8=F", "00000000/0=T R 0a800000/24 08080808/32=F")
+			case 10: // the extra static host goes away / changes
+				var keep []string
+				for _, e := range sts {
+					if !strings.HasPrefix(e, hx("10.128.0.12")+"@") {
+						keep = append(keep, e)
+					}
+				}
+				if len(keep) == len(sts) {
+					keep = append(keep, hx("10.128.0.12")+"@"+ap4(r))
+				}
+				sts = keep
+			case 11: // calculated remotes changed
+				cfgCr = hlib.Pick(r, "-", hlib.PrefixHex(netip.MustParsePrefix("10.128.0.0/24"))+"@"+hlib.PrefixHex(netip.MustParsePrefix("70.3.3.0/24"))+":4242")
+			}
+			cfgLhs, cfgSt = join(hosts, ","), join(sts, ";")
+			emit("reload lh=%s lhs=%s st=%s cr=%s G %s", hlib.B(cfgLH), cfgLhs, cfgSt, cfgCr, cfgG)
+		}
+		nReload := hlib.Pick(r, 0, 0, 1, 1, 2, 3)
+		if strings.Contains(g, " R ") && lhs != "-" {
+			// per-range lists are keyed by the PEER's overlay address, not by the lighthouse that relays the news:
+			// a punch notification and an answer about peers inside / outside the ranges, carrying addresses the
+			// range lists deny
+			for x := r.Intn(3); x > 0; x-- {
+				peer := hx(hlib.Pick(r, "10.128.0.10", "10.128.0.11", "10.128.0.12", "10.128.0.20", "10.128.0.30", "fd80::10"))
+				l4 := strings.Join([]string{hlib.AddrPortHex(netip.MustParseAddrPort("70.1.1.1:4242")), hlib.AddrPortHex(netip.MustParseAddrPort("8.8.8.8:4242")),
+					hlib.AddrPortHex(netip.MustParseAddrPort("1.1.1.1:4242")), hlib.AddrPortHex(netip.MustParseAddrPort("172.16.0.9:4242")), ap4(r)}, ",")
+				emit("msg %s %d 2 %s %s %s - -", hx(hlib.Pick(r, "10.128.0.2", "10.128.0.3")), hlib.Pick(r, 5, 5, 2), peer, l4,
+					hlib.Pick(r, "-", hlib.AddrPortHex(netip.MustParseAddrPort("[2001:db8::1]:4242"))+","+hlib.AddrPortHex(netip.MustParseAddrPort("[::ffff:70.1.1.1]:1"))))
+				i++
+			}
+		}
 		i++
 		from := func() string {
 			switch r.Intn(10) {
@@ -175,13 +269,18 @@ func gen(r *hlib.Rand, n int, tier, profile string, emit func(string, ...any)) {
 			case 2:
 				return hx("10.128.0.11") + "," + hx("10.128.0.2")
 			case 3, 4:
-				return hx(hlib.Pick(r, "10.128.0.2", "10.128.0.3"))
+				return hx(hlib.Pick(r, "10.128.0.2", "10.128.0.3", "10.128.0.2", "10.128.0.3", "10.128.0.4"))
 			}
 			return hx(hlib.Pick(r, peers[:8]...))
 		}
 		k := hlib.Pick(r, 2, 4, 8, 12, 20)
 		for j := 0; j < k; j++ {
 			i++
+			if nReload > 0 && r.Chance(1, 4) {
+				nReload--
+				reload()
+				i++
+			}
 			switch r.Intn(20) {
 			case 0:
 				emit("dump")
@@ -373,8 +472,82 @@ func showCache(rl *nebula.RemoteList, me netip.Addr) string {
 	return join(parts, ";")
 }
 
+// buildSettings renders the configuration of a reset / reload line as the settings tree nebula reads.
+func buildSettings(kv map[string]string, gToks []string) map[string]any {
+	out := map[string]any{}
+	lhc := map[string]any{"am_lighthouse": kv["lh"] == "1"}
+	out["listen"] = map[string]any{"port": 4242}
+	out["punchy"] = map[string]any{"punch": true, "respond": true}
+	if kv["lhs"] != "-" && kv["lhs"] != "" {
+		var hosts []any
+		for _, x := range parseAddrs(kv["lhs"]) {
+			hosts = append(hosts, x.String())
+		}
+		lhc["hosts"] = hosts
+	}
+	if kv["st"] != "-" && kv["st"] != "" {
+		shm := map[string]any{}
+		for _, e := range strings.Split(kv["st"], ";") {
+			k, v, _ := strings.Cut(e, "@")
+			var vals []any
+			for _, x := range strings.Split(v, "+") {
+				vals = append(vals, hlib.ParseAddrPortHex(x).String())
+			}
+			shm[hlib.ParseAddrHex(k).String()] = vals
+		}
+		out["static_host_map"] = shm
+	}
+	if len(gToks) > 0 && gToks[0] != "-" {
+		m := map[string]any{}
+		ranges := map[string]any{}
+		cur := m
+		for i := 0; i < len(gToks); i++ {
+			if gToks[i] == "R" {
+				cur = map[string]any{}
+				ranges[hlib.ParsePrefixHex(gToks[i+1]).String()] = cur
+				i++
+				continue
+			}
+			k, v, _ := strings.Cut(gToks[i], "=")
+			cur[hlib.ParsePrefixHex(k).String()] = v == "T"
+		}
+		lhc["remote_allow_list"] = m
+		if len(ranges) > 0 {
+			lhc["remote_allow_ranges"] = ranges
+		}
+	}
+	if cr := kv["cr"]; cr != "" && cr != "-" {
+		crm := map[string]any{}
+		for _, e := range strings.Split(cr, ";") {
+			k, v, _ := strings.Cut(e, "@")
+			var l []any
+			for _, x := range strings.Split(v, "+") {
+				i := strings.LastIndexByte(x, ':')
+				l = append(l, map[string]any{"mask": hlib.ParsePrefixHex(x[:i]).String(), "port": hlib.Atoi(x[i+1:])})
+			}
+			crm[hlib.ParsePrefixHex(k).String()] = l
+		}
+		lhc["calculated_remotes"] = crm
+	}
+	out["lighthouse"] = lhc
+	return out
+}
+
+func splitKV(a []string) (map[string]string, []string) {
+	kv := map[string]string{}
+	for i, tkn := range a {
+		if tkn == "G" {
+			return kv, a[i+1:]
+		}
+		k, v, _ := strings.Cut(tkn, "=")
+		kv[k] = v
+	}
+	return kv, nil
+}
+
 func newExec(t *testing.T) func([]string) string {
 	var lh *nebula.LightHouse
+	var cfgC *config.C
 	var lhh *nebula.LightHouseHandler
 	var p *nebula.Punchy
 	var w *recWriter
@@ -441,66 +614,14 @@ func newExec(t *testing.T) func([]string) string {
 				kv[k] = v
 			}
 			c := config.NewC(l)
-			lhc := map[string]any{"am_lighthouse": kv["lh"] == "1"}
-			c.Settings["listen"] = map[string]any{"port": 4242}
-			c.Settings["punchy"] = map[string]any{"punch": true, "respond": true}
+			for k, v := range buildSettings(kv, a[min(gi+1, len(a)):]) {
+				c.Settings[k] = v
+			}
+			cfgC = c
 			var nets []netip.Prefix
 			for _, s := range strings.Split(kv["nets"], ",") {
 				nets = append(nets, hlib.ParsePrefixHex(s))
 			}
-			if kv["lhs"] != "-" {
-				var hosts []any
-				for _, x := range parseAddrs(kv["lhs"]) {
-					hosts = append(hosts, x.String())
-				}
-				lhc["hosts"] = hosts
-			}
-			if kv["st"] != "-" {
-				shm := map[string]any{}
-				for _, e := range strings.Split(kv["st"], ";") {
-					k, v, _ := strings.Cut(e, "@")
-					var vals []any
-					for _, x := range strings.Split(v, "+") {
-						vals = append(vals, hlib.ParseAddrPortHex(x).String())
-					}
-					shm[hlib.ParseAddrHex(k).String()] = vals
-				}
-				c.Settings["static_host_map"] = shm
-			}
-			if gi+1 < len(a) && a[gi+1] != "-" {
-				m := map[string]any{}
-				ranges := map[string]any{}
-				cur := m
-				toks := a[gi+1:]
-				for i := 0; i < len(toks); i++ {
-					if toks[i] == "R" {
-						cur = map[string]any{}
-						ranges[hlib.ParsePrefixHex(toks[i+1]).String()] = cur
-						i++
-						continue
-					}
-					k, v, _ := strings.Cut(toks[i], "=")
-					cur[hlib.ParsePrefixHex(k).String()] = v == "T"
-				}
-				lhc["remote_allow_list"] = m
-				if len(ranges) > 0 {
-					lhc["remote_allow_ranges"] = ranges
-				}
-			}
-			if cr := kv["cr"]; cr != "" && cr != "-" {
-				crm := map[string]any{}
-				for _, e := range strings.Split(cr, ";") {
-					k, v, _ := strings.Cut(e, "@")
-					var l []any
-					for _, x := range strings.Split(v, "+") {
-						i := strings.LastIndexByte(x, ':')
-						l = append(l, map[string]any{"mask": hlib.ParsePrefixHex(x[:i]).String(), "port": hlib.Atoi(x[i+1:])})
-					}
-					crm[hlib.ParsePrefixHex(k).String()] = l
-				}
-				lhc["calculated_remotes"] = crm
-			}
-			c.Settings["lighthouse"] = lhc
 			var ctx context.Context
 			ctx, cancel = context.WithCancel(context.Background())
 			v := cert.Version2
@@ -518,6 +639,19 @@ func newExec(t *testing.T) func([]string) string {
 			}
 			lhh = lh.NewRequestHandler()
 			return "ok"
+		case "reload":
+			// the real reload path: the whole configuration is re-read through config.C.ReloadConfigString and the
+			// callbacks registered by NewLightHouseFromConfig / NewPunchyFromConfig run
+			kv, gToks := splitKV(a[1:])
+			y, err := yaml.Marshal(buildSettings(kv, gToks))
+			if err != nil {
+				panic(err)
+			}
+			if err := cfgC.ReloadConfigString(string(y)); err != nil {
+				return "err " + err.Error()
+			}
+			synctest.Wait()
+			return "lhs=" + addrs(lh.GetLighthouses())
 		case "msg":
 			from := parseAddrs(a[1])
 			d := &nebula.NebulaMetaDetails{}
